@@ -94,6 +94,11 @@ def history_item(args):
 
     def path(ctx):
         ds = shapes.build(lvs, names)
+        try:
+            alg0, _ = sweep.make_config(cfg, [])
+            alg0.compute_consensus_rankings(ds, sc, True)       # primes whatever the library caches
+        except Exception:  # noqa
+            pass
         ds.remove_elements({Element(names[e])})
         o = sweep.observe(ctx, cfg, lv2, names, True, B, T, sc, ds)
         sweep.chk_crash(o, out)
@@ -140,6 +145,10 @@ def replay(p):
     sc = ScoringScheme([[float(x) for x in v] for v in p["scheme"]])
     if "history" in p:
         ds = Dataset.from_raw_list(shapes.from_json(p["history"]["first"]))
+        try:
+            BordaCount(use_bucket_id="bucket_id" in p["config"]).compute_consensus_rankings(ds, sc, True)
+        except Exception:  # noqa
+            pass
         ds.remove_elements({Element(p["history"]["removed"])})
     else:
         ds = Dataset.from_raw_list(shapes.from_json(p["rankings"]))
